@@ -149,6 +149,7 @@ HAND = {
     "class_computed_accessors": "var k = 'k'; class A { get [k]() { return 1; } set [k](v) {} static get [k + 's']() { return 2; } static set [k + 's'](v) {} static set named(v) {} static get named() { return 3; } get plain() { return 4; } set plain(v) {} } new A()[k]; A.named = A.ks;",
     "infinities_nan_consts": "var a = -1 / 0, b = -Infinity, c = -1e999, d = 1e999, e = 0 / 0, f = -0; [a, b, c, d, e, f, -(1 / 0), +Infinity];",
     "eval_var_in_function_scopes": "function f() { eval('var ev1 = 1; function ef() { return ev1; } { let el = 2; var ev2 = el; }'); return ev1 + ev2 + ef(); } f(); function g(s) { 'use strict'; return eval(s); } g('var sv = 1; let sl = 2; class C {} sv + sl');",
+    "async_body_scope_completion": "function g() {} async function f(a) { let l = 1; function inner() { return l; } g(); await inner(); } f(1); async function* ag(a) { let l = 2; const k = () => l; g(); yield k(); } ag(1).next(); var af = async () => { let z = 3; g(() => z); await 0; }; af();",
     "short_circuit_in_expr_context": "var i = 7, j = null; var v = 'x' + (i ??= 3); var w = [j ||= 2, j &&= 3]; var u = f(i ??= 1, j ??= 2); function f() {} var t = (i &&= 0) ? 1 : 2; while (j ||= 0) { j = 0; } if (i ??= 1) { }",
 }
 for k, v in HAND.items():
